@@ -30,7 +30,16 @@ START = {
     "empty": {"start": [], "outside": []},
     "small": {"start": [["a", "d"], ["a/a", "f"]], "outside": [["a", "d"], ["a/b", "f"]]},
     "deep": {"start": [["a", "d"], ["a/b", "d"], ["a/b/a", "f"], ["b", "f"]], "outside": []},
+    # a tree outside with the same shape as one inside: what arrives can meet what a departed tree left behind
+    "twin": {"start": [["a", "d"], ["a/b", "d"], ["a/b/a", "f"]], "outside": [["t", "d"], ["t/b", "d"], ["t/b/g", "f"], ["t/b/c", "d"]]},
 }
+TWIN_HISTORIES = [
+    [["moveout", "a", "z1"], ["drain"], ["movein", "t", "a"], ["drain"]],
+    [["moveout", "a/b", "z1"], ["drain"], ["movein", "t/b", "a/b"], ["drain"]],
+    [["moveout", "a", "z1"], ["drain"], ["movein", "t", "a"], ["drain"], ["movein", "z1", "a/b/d"], ["drain"]],
+    [["moveout", "a", "z1"], ["drain"], ["movein", "t/b", "a"], ["drain"], ["mkdir", "a/b"], ["drain"]],
+    [["rename", "a", "c"], ["drain"], ["movein", "t", "a"], ["drain"], ["rename", "c", "a/b/d"], ["drain"]],
+]
 
 
 # ----------------------------------------------------------------------------- histories from TLC
